@@ -37,3 +37,35 @@ CONFIG['C06'] = {
                   "correspondence (sampled; all 65,536 8-bit pairs per configuration), not proved. f32 arithmetic = Lean Float32.",
     'technique': "Lean 4 theorems over Rust->Lean translated definitions (omega / nlinarith / decide +kernel) + differential correspondence",
 }
+
+CONFIG['C17'] = {
+    'runs': [{'profile': 'verif-dbg'}],
+    'rule': "change_type_of_pixel_components through the public API for all 13 x 13 (source, destination) pixel-type pairs: "
+            "rejected pairs and dimension mismatches are compared with the translated dispatch table; for each of the 43 supported "
+            "pairs the complete ramp (all 256 / 65,536 component values) for integer sources, and for I32 / F32 sources boundary "
+            "values (every rounding point k/255, (k+0.5)/255 +- 1 ulp, shifts' rounding points, NaN, +-inf, +-0, subnormals) plus "
+            "dense random samples; widening round trips a->b->a for the five widening pairs on the complete domain. One case = one "
+            "image (all components of a pair); distinct_nontrivial counts distinct (pair, kind of case). The Lean driver compares "
+            "model == implementation, soft-float model == hardware Float32 model, and judges end points, monotonicity (after "
+            "sorting by input), saturation and round trips on the implementation's output.",
+    'trusted_base': COMMON_TB + [
+        "Fir.Soft (exact binary32 rounding over Nat) is tied to hardware Float32 and to the implementation by correspondence on the "
+        "complete u8/u16 domains and the f32 samples",
+        "IEEE-754 round-to-nearest is monotone (premise `Monotone fl` of float_to_int_monotone / int_to_float_monotone)",
+    ],
+    'assumptions': [
+        "float conversions for arbitrary f32 inputs: monotonicity is proved for the shape clamp -> scale -> round -> saturating cast "
+        "under any monotone rounding; the source text of the six float impls is pinned by float_sources_as_modelled",
+        "I32 range convention of the crate: [0, i32::MAX] towards unsigned types, [i32::MIN, i32::MAX] towards f32",
+    ],
+    'partial': ["end-point clause for u8->i32 and u16->i32 is false of the code (known findings F13a, F13b; negation proved: "
+                "u8_i32_max_not_reached, u16_i32_max_not_reached)"],
+    'level_text': "Machine-checked proof (Lean 4): integer component conversions are re-translated from src/pixels.rs on every run and proved "
+                  "monotone, end-point preserving (except the recorded finding), saturating and lossless on widening round trips for all "
+                  "inputs; u8/u16 <-> f32 are proved on an exact soft-float model for the complete domains (kernel evaluation, 65,536 "
+                  "values in 16 parallel chunks); f32 -> integer monotonicity for all inputs abstractly in the rounding function. The "
+                  "soft-float model, the hardware model and the implementation are compared on complete ramps on every run.",
+    'level_note': "Trusted: Lean kernel, rs2lean, harness/protocol; IEEE rounding monotone (premise); Fir.Soft == hardware binary32 by "
+                  "correspondence (complete u8/u16 domains + samples).",
+    'technique': "Lean 4 theorems (omega, decide +kernel over complete domains, Mathlib monotonicity) over translated definitions + soft-float model + differential correspondence",
+}
